@@ -85,9 +85,11 @@ def cases(ctx):
             la = lays[0]
             for lb in lays[1:12]:
                 yield {'k': 'layout', 'spec': spec, 'la': la, 'lb': lb, 'op': name, 'args': args}
-    for i in range(150 if quick else 2000):
-        spec = gen.rand_frame_spec(rng, 4, 5, dtypes=gen.DTYPES_ALL, index_kinds=('auto', 'int', 'str', 'ih'), column_kinds=('auto', 'str', 'ih'))
-        yield {'k': 'coher', 'spec': spec}
+    for i in range(400 if quick else 4000):
+        # every third case draws from one family of dtypes (same kind, different widths): caches keyed on the kind alone show up
+        fam = rng.choice([['int64', 'int8'], ['float64', 'float32'], ['str'], ['datetime64[D]', 'datetime64[s]'], ['uint8', 'uint64', 'int8']]) if i % 3 == 0 else gen.DTYPES_ALL
+        spec = gen.rand_frame_spec(rng, 4, 5, dtypes=fam, index_kinds=('auto', 'int', 'str', 'ih'), column_kinds=('auto', 'str', 'ih'))
+        yield {'k': 'coher', 'spec': spec, 'seed': i}
 
 
 def model_lines(c):
@@ -227,22 +229,20 @@ def short(r, n=160):
     return s if len(s) <= n else s[:n] + '...'
 
 
-def eval_coher(ctx, c):
-    import static_frame as sf
-    fails = []
-    spec = c['spec']
-    f = gen.build_frame(spec)
+def coherence_of(f, spec):
+    """first incoherence between the views of frame `f` and the column tokens of `spec`, or None"""
     n, m = spec['rows'], len(spec['cols'])
-    ctx.count('coherence_cases')
     what = None
     if f.shape != (len(f.index), len(f.columns)) or f.shape != (n, m):
         what = f'shape {f.shape} vs labels {(len(f.index), len(f.columns))}'
     elif len(f.dtypes) != m:
         what = 'dtypes length'
     else:
+        from sfv.props.c04 import cell_equal
         colt = gen.spec_cols_tokens(spec)
         vals = f.values
         cols_by_iter = [array_toks(a) for a in f.iter_array(axis=0)] if m else []
+        rows_by_iter = [array_toks(a) for a in f.iter_array(axis=1)] if n and m else []
         for j in range(m):
             if cols_by_iter[j] != colt[j]:
                 what = f'iter_array(0) column {j}: {cols_by_iter[j]} != {colt[j]}'
@@ -253,9 +253,10 @@ def eval_coher(ctx, c):
                 e = tok(f.iloc[i, j])
                 if e != colt[j][i]:
                     what = f'iloc[{i},{j}] {e} != {colt[j][i]}'
-                from sfv.props.c04 import cell_equal
                 if not cell_equal(tok(vals[i, j]), colt[j][i]):
                     what = f'values[{i},{j}] {tok(vals[i, j])} != {colt[j][i]}'
+                if rows_by_iter and not cell_equal(rows_by_iter[i][j], colt[j][i]):
+                    what = f'iter_array(1) row {i} cell {j} {rows_by_iter[i][j]} != {colt[j][i]}'
         if what is None and m and n:
             pairs = f.to_pairs(0)
             for j, (lab, col) in enumerate(pairs):
@@ -268,8 +269,37 @@ def eval_coher(ctx, c):
             rows = list(f.iter_series(axis=1))
             if len(rows) != n:
                 what = 'iter_series(1) length'
+            for i, t in enumerate(f.iter_tuple(axis=1, constructor=tuple)):
+                for j, v in enumerate(t):
+                    if not cell_equal(tok(v), colt[j][i]):
+                        what = f'iter_tuple(1) row {i} cell {j} {tok(v)} != {colt[j][i]}'
+    return what
+
+
+def eval_coher(ctx, c):
+    import static_frame as sf
+    fails = []
+    spec = c['spec']
+    f = gen.build_frame(spec)
+    ctx.count('coherence_cases')
+    what = coherence_of(f, spec)
     if what:
         fails.append(Failure('oracle', f'coherence: {what}', c))
+    # the same blocks accumulated one by one in a growing TypeBlocks (what FrameGO does): the caches that are
+    # maintained incrementally (shape, index, dtypes, row dtype) must describe the same frame
+    blocks = gen.build_blocks(spec)
+    if blocks and spec['rows']:
+        tb = sf.TypeBlocks.from_blocks(blocks[0])
+        for b in blocks[1:]:
+            if c.get('seed', 0) % 2:
+                tb.extend((b,))
+            else:
+                tb.append(b)
+        g = sf.Frame(tb, index=f.index, columns=f.columns, own_data=True)
+        ctx.count('coherence_grown_cases')
+        what = coherence_of(g, spec)
+        if what:
+            fails.append(Failure('oracle', f'coherence of blocks accumulated by {"extend" if c.get("seed", 0) % 2 else "append"}: {what}', c))
     return fails
 
 
